@@ -21,6 +21,10 @@ THEOREMS = [
     "VK.C17_rd_two_seats",
     "VK.kernel_boosted_takes_squares",
     "VK.kernel_boosted_single",
+    "VK.shuffle_supp_perm",
+    "VK.shuffle_mass",
+    "VK.C17_tiebreak_first",
+    "VK.C17_tiebreak_last",
 ]
 RULE = ("cases = RandomDictator / BoostedRandomDictator on random profiles (1-6 candidates, ties in first place, partial "
         "ballots, rational weights; 15% with unequal weights of mean exactly one) x m x seeds: every call of random.choices / random.uniform / numpy.random.choice / "
